@@ -327,7 +327,17 @@ J gen(uint64_t seed, bool thorough) {
       if (w < 0.4) {
         std::string n = "x" + std::to_string(nbad++);
         op["op"] = "bad"; op["name"] = n; op["what"] = "cv";
-        if (r.chance(0.4)) {
+        if (r.chance(0.12)) {
+          // legacy wall keywords inside the variable (the library turns them into a generated harmonicWalls block), in the right or
+          // the wrong order, next to another value that is refused later in the same definition
+          CvSpec s = make_cv(r, ec.natoms, kinds[r.below(5)], n);
+          place_grid(s, m, T, r, (int)r.range(4, 10), 1.4);
+          bool swapped = r.chance(0.4); double a = std::round(r.uniform(0.5, 3) * 10) / 10, b = a + std::round(r.uniform(0.5, 3) * 10) / 10;
+          s.extra += "  lowerWall " + num(swapped ? b : a) + "\n  upperWall " + num(swapped ? a : b) + "\n  lowerWallConstant " + num(std::round(r.uniform(0.5, 5) * 10) / 10) + "\n  upperWallConstant 2.0\n";
+          std::string also;
+          if (r.chance(0.6)) { static const char *bad2[] = {"  extendedLagrangian on\n  extendedFluctuation -1\n", "  timeStepFactor 0\n", "  runAve on\n  runAveLength 0\n", "  corrFunc on\n  corrFuncWithColvar nosuchvariable\n"}; also = bad2[r.below(4)]; s.extra += also; }
+          op["config"] = s.config(); label = std::string("legacyWalls:") + (swapped ? "swapped" : "ordered") + (also.empty() ? "" : "+refused_later");
+        } else if (r.chance(0.4)) {
           int dim = 1; op["config"] = exotic_cv(r, ec.natoms, n, label, dim);
           exotic.emplace_back(n, dim);
         } else {
@@ -580,6 +590,7 @@ Property make() {
            "boundaries swapped, a keyword dropped, a missing file), output request, run 1-8 steps with or without a graceful end}; twin = same plan without the refused requests; "
            "non-trivial = at least one invalid request and one step; distinct = hash of (operation-kind sequence, mutated keywords)";
   p.rule += " Later additions: 40% of the invalid variable requests come from the whole component catalogue (31 types) with degenerate groups, axes, references, cut-offs, exponents; bias keywords are drawn half of the time from the bias type's own list; literals no number type can hold; histogramRestraint and multiple-walker requests with frequency zero.";
+  p.rule += " Fifth round: 12% of the invalid variable requests carry legacy wall keywords next to a value refused later.";
   p.assumptions = {"kinematic engine; a request the library accepts (the value turned out to be tolerated) stays in both runs and is only exercised for survival on the following steps and outputs",
                    "bitwise equality with the twin is required for every object defined by a valid request",
                    "the vocabulary of bad values is input generation, not simulation: what this check decides is the behaviour of a running module around the refused request"};
